@@ -19,7 +19,47 @@ type TaintTracker struct {
 	lastV   map[[2]int]uint64
 	// digests delivered so far: id -> (bytes, taint snapshot of the responder)
 	digests map[int]*deliveredDigest
-	Events  int
+	// history of the taint set, one entry per step after which it differed from
+	// the entry before: a delta carries the taints its emitter had when it was
+	// EMITTED (Action.EmitStep), which is not when the digest it answers was last
+	// delivered - a duplicated digest is answered twice, possibly from different
+	// views (before and after the responder expired the owner).
+	hist   []taintHist
+	Events int
+}
+
+type taintHist struct {
+	step int
+	set  map[[2]int]bool
+}
+
+// taintsOfBefore returns the owners for which node p was tainted after the last
+// step before `step`.
+func (t *TaintTracker) taintsOfBefore(p, step int) map[int]bool {
+	out := map[int]bool{}
+	for i := len(t.hist) - 1; i >= 0; i-- {
+		if t.hist[i].step < step {
+			for pair := range t.hist[i].set {
+				if pair[0] == p {
+					out[pair[1]] = true
+				}
+			}
+			break
+		}
+	}
+	return out
+}
+
+func sameTaintSet(a, b map[[2]int]bool) bool {
+	if len(a) != len(b) {
+		return false
+	}
+	for k := range a {
+		if !b[k] {
+			return false
+		}
+	}
+	return true
 }
 
 type deliveredDigest struct {
@@ -92,6 +132,9 @@ func (t *TaintTracker) AfterStep(s *Sim, a *Action) {
 				}
 				snap = dd.taintSnap
 			}
+			if a.EmitStep > 0 {
+				snap = t.taintsOfBefore(a.Src, a.EmitStep)
+			}
 			for _, de := range dl {
 				o := t.idx(s, de.ID)
 				if o < 0 || o == a.Node || len(de.Entries) == 0 {
@@ -124,6 +167,13 @@ func (t *TaintTracker) AfterStep(s *Sim, a *Action) {
 				}
 			}
 		}
+	}
+	if len(t.hist) == 0 || !sameTaintSet(t.hist[len(t.hist)-1].set, t.tainted) {
+		cp := make(map[[2]int]bool, len(t.tainted))
+		for k := range t.tainted {
+			cp[k] = true
+		}
+		t.hist = append(t.hist, taintHist{step: s.Step, set: cp})
 	}
 	// 2. remember versions for the next step
 	for _, p := range s.Nodes {
